@@ -19,12 +19,16 @@ def _ratio(u_sub, u_parent):
     return datetime.timedelta(minutes=u_sub).total_seconds() / datetime.timedelta(minutes=u_parent).total_seconds()
 
 
-def make_sub(tmpdir, d, absence, how, unit_min, tag, post_insert=None, backward=False):
+def make_sub(tmpdir, d, absence, how, unit_min, tag, post_insert=None, backward=False, paused=None):
     """a sub-project of pure duration d (one task, one worker), simulated as requested and saved"""
     sp = {"tasks": [{"name": "S0", "work": float(d)}], "links": [], "unit_min": unit_min,
           "teams": [{"name": "TM0", "targets": [0], "workers": [{"name": "SW0", "skills": {"S0": 1.0}, "cost": 1.0}]}]}
     m = S.build(sp)
-    if how == "success" and backward:
+    if how == "success" and paused is not None:
+        # the sub-project's own run was stopped after `paused` steps and continued (same calendar, state and logs kept)
+        m.project.simulate(max_time=paused, absence_time_list=list(absence))
+        m.project.simulate(max_time=d + len(absence) + 20, absence_time_list=list(absence), initialize_state_info=False, initialize_log_info=False)
+    elif how == "success" and backward:
         m.project.backward_simulate(max_time=d + len(absence) + 20, absence_time_list=list(absence))  # the sub-project was planned backwards (logs reversed into forward reading)
     elif how == "success":
         m.project.simulate(max_time=d + len(absence) + 20, absence_time_list=list(absence))
@@ -105,7 +109,7 @@ def one(tmpdir, d, absence, how, remove, u_sub, u_parent, position, tag, prior=N
                 done += 1
             T0 += 1
         post_insert = [T0 - 1, T0]
-    path, sub_time, sub_status = make_sub(tmpdir, d, absence, how, u_sub, tag, post_insert, backward=(extra == "sub-backward"))
+    path, sub_time, sub_status = make_sub(tmpdir, d, absence, how, u_sub, tag, post_insert, backward=(extra == "sub-backward"), paused=(2 if extra == "sub-paused" else None))
     if post_insert:
         absence = tuple(absence) + tuple(post_insert)
         sub_time = T0 + 2
@@ -116,7 +120,10 @@ def one(tmpdir, d, absence, how, remove, u_sub, u_parent, position, tag, prior=N
         with warnings.catch_warnings():
             warnings.simplefilter("ignore")
             other.set_all_attributes_from_json(remove_absence_time_list=prior)
-    m = S.build(parent_spec(position, path, u_parent, team_targets_sub=(extra == "team-targets-sub")))
+    psp = parent_spec(position, path, u_parent, team_targets_sub=(extra == "team-targets-sub"))
+    if extra == "link-late":
+        psp = dict(psp, link_late=True)  # tasks registered successors-first, each linked to the tasks it waits for right after its own registration
+    m = S.build(psp)
     t = m.byname["SUB"]
     before = attrs(t)
     with warnings.catch_warnings(record=True) as wlist:
@@ -425,6 +432,13 @@ def items(tier):
         for us, up in ((1, 1), (3, 2)):
             for pos in ("beside-same-name-auto-first", "beside-same-name-auto-last"):
                 out.append((d, (), "success", True, us, up, pos, None))
+        for ab in ((0,), (1,), (0, 1), (0, 3), (1, d + 5)):
+            for remove in (True, False):
+                out.append((d, ab, "success", remove, 1, 1, "alone", None, False, None, "sub-paused"))
+                out.append((d, ab, "success", remove, 3, 2, "after-pred", None, False, None, "sub-paused"))
+        for us, up in ((1, 1), (3, 2), (2, 3)):
+            for pos in ("after-pred", "before-succ", "mixed-inputs", "beside"):
+                out.append((d, (), "success", True, us, up, pos, None, False, None, "link-late"))
         # the saved sub-project result comes from a backward run whose calendar also names steps beyond its end
         for ab in ((1,), (0, d + 9), (1, d + 3, d + 4), (d + 2,)):
             for remove in (True, False):
